@@ -29,6 +29,8 @@ type HarnessResult struct {
 	Nontrivial  int                   `json:"nontrivial_paths"`
 	Samples     []map[string]any      `json:"samples"`
 	SolverErrs  []string              `json:"solver_errors"`
+	Access      map[string]int        `json:"access,omitempty"`
+	AccessPos   map[string]string     `json:"access_pos,omitempty"`
 	noteSet     map[string]bool
 	sigSeen     map[string]int
 	pathSigs    map[string]bool
@@ -39,7 +41,7 @@ func newHarnessResult(name string, bounds map[string]int) *HarnessResult {
 	return &HarnessResult{
 		Harness: name, Bounds: bounds,
 		Paths: map[string]int{}, Labels: map[string]*labelStat{}, FailCount: map[string]int{},
-		Covers: map[string]int{}, Funcs: map[string]int{}, Intercepts: map[string]int{},
+		Covers: map[string]int{}, Funcs: map[string]int{}, Intercepts: map[string]int{}, Access: map[string]int{}, AccessPos: map[string]string{},
 		noteSet: map[string]bool{}, sigSeen: map[string]int{}, pathSigs: map[string]bool{},
 	}
 }
@@ -93,6 +95,14 @@ func (r *HarnessResult) merge(o *HarnessResult) {
 	}
 	for k, v := range o.Intercepts {
 		r.Intercepts[k] += v
+	}
+	for k, v := range o.Access {
+		r.Access[k] += v
+	}
+	for k, v := range o.AccessPos {
+		if _, ok := r.AccessPos[k]; !ok {
+			r.AccessPos[k] = v
+		}
 	}
 	r.Queries += o.Queries
 	r.SolverSec += o.SolverSec
@@ -248,7 +258,9 @@ func (ex *Exec) runPath(prefix []int8) {
 	ex.ghost = map[string]Value{}
 	ex.vfs = nil
 	ex.accessLog = nil
-	ex.trackLocks = false
+	ex.trackLocks = ex.bounds["locks"] == 1
+	ex.muHeld = 0
+	ex.raftCells = 0
 
 	ex.solver.send("(push 1)")
 	end := ex.runGuarded()
